@@ -46,6 +46,118 @@ pub fn run(args: &[String]) -> i32 {
     0
 }
 
+/// Corner configurations named by C18: empty metadata buffers (zero frames), and the
+/// `metadata()` round trip (buffers handed back by one instance, reused by the next).
+pub fn corners(_args: &[String]) -> i32 {
+    use crate::buf::{heap_free_raw, heap_raw};
+    // --- zero frames: all three buffers are empty ---
+    for kind in [ClassKind::Simple, ClassKind::Movable] {
+        let cfg = Config {
+            frames: 0,
+            alloc_all: false,
+            kind,
+            slots: vec![0; kind.classes()],
+        };
+        let classing = cfg.classing();
+        let ms = LLFree::metadata_size(&classing, 0);
+        let ((lp, ln), l) = heap_raw(ms.local, 0);
+        let ((tp, tn), t) = heap_raw(ms.trees, 0);
+        let ((pp, pn), p) = heap_raw(ms.lower, 0);
+        for init in [Init::FreeAll, Init::AllocAll] {
+            let (l2, t2, p2) = unsafe {
+                (
+                    std::slice::from_raw_parts_mut(l.as_mut_ptr(), l.len()),
+                    std::slice::from_raw_parts_mut(t.as_mut_ptr(), t.len()),
+                    std::slice::from_raw_parts_mut(p.as_mut_ptr(), p.len()),
+                )
+            };
+            if let Ok(a) = LLFree::new(0, init, &classing, MetaData { local: l2, trees: t2, lower: p2 }) {
+                let _ = a.get(None, Request::new(0, Class(0), None));
+                let _ = a.put(FrameId(0), Request::new(0, Class(0), None));
+                a.drain();
+                let _ = a.stats();
+                let _ = a.tree_stats();
+                a.validate();
+            }
+        }
+        heap_free_raw(lp, ln);
+        heap_free_raw(tp, tn);
+        heap_free_raw(pp, pn);
+    }
+    // --- metadata() round trip ---
+    for frames in [HUGE_FRAMES + 3, TREE_FRAMES, TREE_FRAMES + HUGE_FRAMES + 70] {
+        let cfg = Config {
+            frames,
+            alloc_all: false,
+            kind: ClassKind::Simple,
+            slots: vec![2, 1],
+        };
+        let classing = cfg.classing();
+        let ms = LLFree::metadata_size(&classing, frames);
+        let ((lp, ln), l) = heap_raw(ms.local, 0);
+        let ((tp, tn), t) = heap_raw(ms.trees, 0);
+        let ((pp, pn), p) = heap_raw(ms.lower, 0);
+        let mut a = LLFree::new(frames, Init::FreeAll, &classing, MetaData { local: l, trees: t, lower: p }).expect("init");
+        let (f, _) = a.get(None, Request::new(0, Class(0), Some(1))).expect("get");
+        let (g, _) = a.get(None, Request::new(3, Class(0), None)).expect("get");
+        // hand the buffers over to a second instance (assume-initialized), as the trait documents
+        // (the old instance must not be touched any more, not even moved: its references are dead)
+        let meta = unsafe { a.metadata() };
+        let b = LLFree::new(frames, Init::None, &classing, meta).expect("reinit");
+        b.put(f, Request::new(0, Class(0), Some(1))).expect("put");
+        b.put(g, Request::new(3, Class(0), None)).expect("put");
+        b.drain();
+        b.validate();
+        assert_eq!(b.stats().free_frames, frames);
+        drop(b);
+        heap_free_raw(lp, ln);
+        heap_free_raw(tp, tn);
+        heap_free_raw(pp, pn);
+    }
+    // --- persistent wrapper over a heap zone (create, use, cold restart) ---
+    {
+        use llfree::frame::Frame;
+        use llfree::wrapper::NvmAlloc;
+        let total = TREE_FRAMES + 40;
+        let align = Frame::SIZE << crate::model::TREE_ORDER;
+        let layout = std::alloc::Layout::from_size_align(total * Frame::SIZE, align).unwrap();
+        let base = unsafe { std::alloc::alloc_zeroed(layout) };
+        let cfg = Config {
+            frames: total,
+            alloc_all: false,
+            kind: ClassKind::Simple,
+            slots: vec![1, 1],
+        };
+        let classing = cfg.classing();
+        let ms = LLFree::metadata_size(&classing, total);
+        let mut held = Vec::new();
+        for recover in [false, true] {
+            let zone: &mut [Frame] = unsafe { std::slice::from_raw_parts_mut(base.cast(), total) };
+            let ((lp, ln), l) = heap_raw(ms.local, 0);
+            let ((tp, tn), t) = heap_raw(ms.trees, 0);
+            {
+                let a = NvmAlloc::<LLFree>::create(zone, recover, &classing, l, t).expect("nvm create");
+                if !recover {
+                    for order in [0usize, 3, 0] {
+                        held.push((a.get(None, Request::new(order, Class(0), Some(0))).expect("get").0, order));
+                    }
+                } else {
+                    for (f, order) in held.drain(..) {
+                        a.put(f, Request::new(order, Class(0), None)).expect("put after recovery");
+                    }
+                    assert_eq!(a.stats().free_frames, a.frames());
+                }
+                a.drain();
+            }
+            heap_free_raw(lp, ln);
+            heap_free_raw(tp, tn);
+        }
+        unsafe { std::alloc::dealloc(base, layout) };
+    }
+    println!("mem-corners: 9 runs completed without a memory error");
+    0
+}
+
 /// Free-running threads on a shared allocator
 pub fn threads(args: &[String]) -> i32 {
     let runs: u64 = args[0].parse().unwrap();
